@@ -170,4 +170,35 @@ PROPS = {
         "assumptions": ["client regions are chunk-disjoint (the documented condition for safe parallel use)"],
         "timeout": 3000,
     },
+    "C03": {
+        "claimed": False,
+        "lean_props": ["ZarrsModel.Props.C03"],
+        "harness": "c03",
+        "rule": "random codec chains built from metadata JSON (transpose with random order, squeeze, bytes both endians, packbits, pcodec, vlen/vlen_v2/vlen-utf8/vlen-bytes, crc32c, fletcher32, shuffle, "
+                "gzip 0-9, zstd 1-19 +-checksum, blosc x6 compressors, bz2 1-9, zlib 0-9, gdeflate 0-12) x 12 data types x shapes of rank 1-3 with size-1 dims (every 40th case a 500..9000-element chunk to "
+                "cross compressor block and page boundaries) x payload classes (incompressible random, constant, all fill, extremes, low entropy, mixed, empty strings): CodecChain::encode -> decode "
+                "must return the input, the encoded length must honour encoded_representation (fixed = equal, bounded = at most), every array-to-array codec's advertised shape mapping is checked, and "
+                "for chains of modelled codecs the encoded bytes are compared byte for byte with the Lean model; non-trivial = distinct chain+payload whose round trip was checked",
+        "nontrivial": lambda l: " -> val rt=" in l,
+        "exhaustive": False,
+        "trusted_base": COMMON_TB + ["external compressors (flate2, zstd, blosc, bzip2, gdeflate, pco) and packbits/vlen are TESTS (round trip + declared size), not theorems; only bytes/transpose/squeeze/crc32c/fletcher32/shuffle/sharding layout are proved"],
+        "assumptions": ["lossy codecs (zfp, fixedscaleoffset, bitround) are not exercised here"],
+    },
+    "C15": {
+        "claimed": False,
+        "lean_props": ["ZarrsModel.Props.C15"],
+        "harness": "c15",
+        "rule": "five configuration families (checksum outermost; checksum inside a compressor; sharding outermost with plain index; with crc32c index; random chains) x after a write history, for 2-3 chunks: "
+                "EVERY byte position of the stored value (<=256 bytes, else first/last 64 + 128 random) x masks {01,80,ff}; 20-60 multi-byte corruptions; EVERY truncation length; extensions by 1..17 bytes; "
+                "8 adversarial shard index entries (near u64::MAX, offset+size overflowing, far past the end) written into the raw index; after each alteration 8 read routes (chunk, if-exists, array subset, "
+                "cached, first/last element subset, two-region partial decoder, sharded-extension subset) run under catch_unwind in a child process; the harness tallies panic / different-data / same / error "
+                "against the pristine reads and the driver requires: no panic ever; checksum outermost + single byte => every full read is an error; checksum present => never different data; truncated "
+                "below the index size => error on every route; live index entry outside the value => error on every full read; non-trivial = distinct tally with at least one alteration",
+        "nontrivial": lambda l: " -> sum n=" in l and " -> sum n=0 " not in l,
+        "exhaustive": True,
+        "exhaustive_scope": "all single-byte positions x 3 masks and all truncation lengths of the chosen stored values (values <= 256 / 200 bytes)",
+        "trusted_base": COMMON_TB + ["absence of panics/aborts inside external codecs on arbitrary bytes is explored (fuzzed), not proved"],
+        "assumptions": ["partial reads through a checksum codec do not validate the checksum (by design of the codec); only no-panic is required of them"],
+        "timeout": 3000,
+    },
 }
